@@ -498,3 +498,50 @@ class Sub:
 
 
 _Sub = Sub
+
+
+def decide_equal(ctx, expects, got, config=None):
+    """Is `got` one of the expected expressions?  First literally (patterns may hold wildcards), then as decision trees
+    (sa/treeq.py: negated tests, swapped branches, `match` vs `if`, nested `if` vs `&&`, early returns).
+    -> ('ok', None) | ('violation', text describing a valuation on which they differ) | ('inconclusive', reason)"""
+    from ..treeq import TreeEq, strip_calls, show_env
+    for p in expects:
+        if match(p, got) is not None:
+            return 'ok', None
+
+    def has_wild(p):
+        return any(isinstance(x, tuple) and x and x[0] in ('?', '?any') for x in walk_all(p))
+
+    def canon(e):
+        def rec(x):
+            if isinstance(x, tuple) and x:
+                if x[0] == 'constdef':
+                    return ('constdef', x[1])
+                return tuple(rec(y) if isinstance(y, tuple) else y for y in x)
+            return x
+        return rec(strip_calls(norm(e)))
+    te = TreeEq(ctx.facts(config) if config else ctx.facts(), canon=canon)
+    verdicts = []
+    for p in expects:
+        p = strip_calls(p)          # generic-argument wildcards of call patterns do not matter here
+        if has_wild(p):
+            continue
+        try:
+            verdicts.append(te.equal(p, got))
+        except RecursionError:
+            verdicts.append((None, 'expression too deep'))
+    if any(v[0] is True for v in verdicts):
+        return 'ok', 'equivalent decision tree'
+    bad = [v for v in verdicts if v[0] is False]
+    if bad and len(bad) == len(verdicts):
+        env, la, lb = bad[0][1]
+        return 'violation', 'differs e.g. when %s: yields %s where %s is required' % (show_env(env, sh) or 'always', sh(lb, 160), sh(la, 160))
+    return 'inconclusive', (verdicts[0][1] if verdicts else 'no concrete expected form to compare with')
+
+
+def walk_all(e):
+    """every node and scalar of a (pattern) tuple tree"""
+    yield e
+    if isinstance(e, tuple):
+        for x in e:
+            yield from walk_all(x)
